@@ -16,7 +16,8 @@ RULE = ("numdrive: every 'way of writing the number' (boundary set per configura
         "StartInFlightTimeout/TouchMessage/FinishMessage/RequeueMessage/StartDeferredTimeout/processInFlightQueue(t)/processDeferredQueue(t) on real "
         "channels (periodic scan parked) with t on both sides of every deadline, both heaps and both maps compared after every operation; scans of "
         "larger real heaps; TOUCH near the cap; calls of the real util.UniqRands (queueScanLoop's channel selection: distinct, in range, all channels when "
-        "there are no more than the selection count). Every case is non-trivial by construction; distinct = distinct case terms.")
+        "there are no more than the selection count); one round (thorough: five) of end-to-end wall-clock checks against a daemon with the real 100 ms ticker "
+        "(REQ 150 ms, DPUB 200 ms, msg_timeout 1 s: client-side timestamps, never early exactly, late by at most 10 s). Every case is non-trivial by construction; distinct = distinct case terms.")
 TRUSTED = [
     "modelled, not verified: time.Now / time.Time arithmetic (one integer clock; wall-clock steps and the monotonic/wall distinction of newTimeout.Sub are not modelled), "
     "sync.Mutex atomicity of each critical section (the channel machine is sequential: map insert + heap push is one step), Go slice reallocation (capacity tracked as a number), "
@@ -54,7 +55,7 @@ SEARCH_SCALE = 4
 def drivers():
     def num_args(tier, seed, scale):
         n = (1500 if tier == "quick" else 12000) * scale
-        return ["-n", str(n), "-seed", str(seed)]
+        return ["-n", str(n), "-seed", str(seed), "-wall", "1" if tier == "quick" else "5"]
 
     def pq_args(tier, seed, scale):
         if tier == "quick":
